@@ -5,5 +5,6 @@ CONSTANTS
   MaxLen = 0
   Slacks = {}
   Grants = {}
+INVARIANT AtEnd
 POSTCONDITION TraceAccepted
 CHECK_DEADLOCK FALSE
